@@ -267,9 +267,9 @@ class assert_is_not(RuntimeAssertionFeedback):
 
     def condition(self, left, right):
         """ Tests if the left and right are equal """
-        left = left.value._actual_value if left.is_sandboxed else left.value
         if errors(left, right):
             return True
+        left = left.value._actual_value if left.is_sandboxed else left.value
         right = right.value._actual_value if right.is_sandboxed else right.value
         return left is right
 
